@@ -316,6 +316,10 @@ fn check_tape(tape: &[u8], gates: &Gates, stats: &mut Stats, counting: bool) -> 
             Some(c) if c != 101 => {} // any exit status but the panic status; death by signal is None
             other => return Err(Failure::new("encodings", "abnormal-exit", format!("`check` of the {} file exits {:?}", ENC_NAMES[which], other), inputs)),
         }
+        match o.tok_status {
+            Some(c) if c != 101 => {}
+            other => return Err(Failure::new("encodings", "abnormal-exit", format!("`tokenize` of the {} file exits {:?}", ENC_NAMES[which], other), inputs)),
+        }
         if let Some((rw, r)) = &reference {
             if (r.status == Some(0)) != (o.status == Some(0)) {
                 return Err(Failure::new("encodings", "verdict-differs", format!("exit status {:?} as {} but {:?} as {}", r.status, ENC_NAMES[*rw], o.status, ENC_NAMES[which]), inputs));
